@@ -233,17 +233,20 @@ def finish(prop, mod, recs, tier, seed, t0, replay_fn, verbose=False, bounded=No
                                         "a longer solver budget) is reported as VIOLATION ... no-failing-input-found"}
     coverage.update(b_cov)
     level = "proof"
-    if bounded_only:
-        # no function of this property is proved: the evidence is the bounded
-        # run-time check of the contracts, labelled as such
+    mostly_bounded = getattr(mod, "EVIDENCE_LEVEL", None) == "exploration"
+    if bounded_only or mostly_bounded:
+        # no function of this property is proved (or, EVIDENCE_LEVEL = "exploration": only a helper is, and the
+        # property as a whole is decided by the stand-in): the evidence is the bounded run-time check of the
+        # contracts, labelled as such; the obligations of a proved helper stay in the coverage as extra keys
         level = "exploration"
         coverage["evaluations"] = b_cov.get("bounded_evaluations", 0)
         coverage["distinct_nontrivial"] = b_cov.get("bounded_distinct_nontrivial", 0)
         coverage["rule"] = b_cov.get("bounded_rule", "")
         coverage["samples"] = b_cov.get("bounded_samples") or [{"note": "no sample"}]
         coverage["exhaustive"] = False
-        for k in ("obligations", "discharged"):
-            coverage.pop(k, None)
+        if bounded_only:
+            for k in ("obligations", "discharged"):
+                coverage.pop(k, None)
         if rc == 0 and coverage["evaluations"] < 1:
             rc = 3
             lines.append("CHECKER-FAILURE bounded stand-in evaluated nothing")
